@@ -13,6 +13,7 @@ A spec is {"fields": [[key, fspec], ...], "dynamic": bool}; fspec is a leaf spec
 {"k": "List", "item": {"k": "Schema"|"CType", ...}}.
 """
 import collections
+import os
 import json
 
 from mc import values as V
@@ -102,6 +103,11 @@ def catalogue():
     c["dict-typed-empty-dflt"] = ({"k": "Dict", "key": {"k": "Str"}, "val": {"k": "Int"}, "o": {"default": D()}}, [D(("k", 1))], [D(("k", "x"))])
     c["list-any-empty-dflt"] = ({"k": "List", "o": {"default": []}}, [[1]], ["x"])
     c["list-int-empty-dflt"] = ({"k": "List", "item": {"k": "Int"}, "o": {"default": []}}, [[1]], [["x"]])
+    # typed containers of typed containers
+    c["dict-of-lists"] = ({"k": "Dict", "key": {"k": "Str"}, "val": {"k": "List", "item": {"k": "Int", "o": {"min": 0, "max": 9}}},
+                           "o": {"default": D(("d", [1]))}}, [D(("k", [2])), D(("k", ["3"]), ("j", []))], [D(("k", [10])), D(("k", 5))])
+    c["list-of-lists"] = ({"k": "List", "item": {"k": "List", "item": {"k": "Int", "o": {"min": 0, "max": 9}}}, "o": {"default": [[1]]}},
+                          [[[2]], [["3"], []]], [[[10]], [5]])
     # unusual but legal option values
     c["int-fracbounds"] = ({"k": "Int", "o": {"min": 0.5, "max": 9.5, "default": 4}}, [1, "9"], [0, 10, "x"])
     c["int-negfrac"] = ({"k": "Int", "o": {"min": -9.5, "max": -0.5}}, [-1, "-9"], [0, -10])
@@ -135,6 +141,12 @@ LOOSE_KINDS = ("Str", "Int", "Float", "Port", "IPv4", "Net", "Host", "Url", "Log
 
 def shape(name, leaf):
     """-> schema spec with the catalogue leaf `leaf` at the positions the shape defines"""
+    if name.endswith("+env"):
+        # the same shape under a schema with an environment prefix; every derived variable is exported *empty*,
+        # which must behave exactly as if no binding existed
+        spec = shape(name[:-4], leaf)
+        spec["env"] = "VPENV"
+        return spec
     spec = _shape(name, leaf)
     L = catalogue()[leaf][0]
     if L["k"] in LOOSE_KINDS and name in ("flat", "nested"):
@@ -201,11 +213,14 @@ class Built:
         self.issued = {}
         self.counters = collections.Counter()
         self.schema = self._schema(spec, cc)
+        if spec.get("env"):
+            for name in env_names(self.schema):
+                os.environ[name] = ""
 
     def _schema(self, spec, cc, into=None):
         if into is None and spec.get("name") and spec["name"] in self.named:
             return self.named[spec["name"]]
-        s = into if into is not None else cc.Schema(dynamic=bool(spec.get("dynamic")))
+        s = into if into is not None else cc.Schema(dynamic=bool(spec.get("dynamic")), **({"env": spec["env"]} if spec.get("env") else {}))
         if into is None and spec.get("name"):
             self.named[spec["name"]] = s
         if spec.get("reject"):
@@ -275,6 +290,30 @@ class Built:
             inner = self._schema(f, cc)
             self.ctypes[f["name"]] = cc.make_type(inner, f["name"], key_filename=f.get("key_filename"))
         return self.ctypes[f["name"]]
+
+
+def env_names(schema):
+    """every environment variable name a field of the schema tree is bound to"""
+    import cincoconfig as cc
+    out = []
+
+    def walk(sch):
+        for key, field in sch._fields.items():
+            if isinstance(field, cc.Schema):
+                walk(field)
+                continue
+            if isinstance(getattr(field, "env", None), str) and field.env:
+                out.append(field.env)
+            inner = getattr(field, "field", None)
+            if isinstance(inner, cc.Schema):
+                walk(inner)
+            elif isinstance(inner, type) and hasattr(inner, "__schema__"):
+                walk(inner.__schema__)
+            ct = getattr(field, "config_type", None)
+            if ct is not None:
+                walk(ct.__schema__)
+    walk(schema)
+    return out
 
 
 def schema_snap(schema):
@@ -513,6 +552,9 @@ def apply_op(w, op):
     if name == "mut":          # in-place mutation of a list/dict value reached by path
         target = chained(cfg, op[1])
         return mutate(w, target, op[2], op[3:])
+    if name == "mutin":        # in-place mutation of a container held inside a typed container: cfg.d["k"].append(v)
+        target = chained(cfg, op[1])[op[2]]
+        return mutate(w, target, op[3], op[4:])
     if name == "render":         # serialisation: must be free of side effects
         cfg.to_tree()
         cfg.to_tree(virtual=True, sensitive_mask="*")
@@ -601,6 +643,8 @@ class World:
             if not all(isinstance(V.dec(x), int) for x in s["items"]):
                 sch2 = cc.Schema(); sch2.y = cc.ListField(cc.StringField()); c = sch2(); c.y = [V.dec(x) for x in s["items"]]
             return c.y
+        if s["$"] == "sibling-value":
+            return chained(self.sibling, s["path"])
         if s["$"] == "item-of":
             return chained(self.cfg, s["path"])[s["index"]]
         if s["$"] == "foreign-list-plus":
